@@ -178,3 +178,77 @@ theorem readAnnotationDefault_enc (p : Pool) (e : SElem) (he : e.Legal p) (r : B
   exact readElemVal_enc p e he (annoFuel (e.encode ++ r)) (by simp [annoFuel]; omega) r
 
 end ClassRead
+
+namespace ClassRead
+open Outcome Spec
+
+/-! ### type annotations outside `Code` -/
+
+theorem readTypePath_enc (path : List (Nat × Nat)) (h : typePathOk path) (r : Bytes) :
+    readTypePath (encTypePath path ++ r) = ok (path, r) := by
+  obtain ⟨hn, hall⟩ := h
+  have := readVec_flatMap (fun s => do
+      let (kind, s) ← u8 s
+      let (idx, s) ← u8 s
+      if kind ≤ 2 then (if idx != 0 then err else pure ((kind, 0), s))
+      else if kind = 3 then pure ((3, idx), s)
+      else err) (fun q : Nat × Nat => [q.1, q.2]) id path
+    (fun q hq r => by
+      rcases hall q hq with ⟨h1, h2⟩ | ⟨h1, h2⟩
+      · obtain ⟨a, b⟩ := q
+        simp only [] at h1 h2
+        subst h2
+        simp [u8, h1]
+      · obtain ⟨a, b⟩ := q
+        simp only [] at h1 h2
+        subst h1
+        simp [u8]) r
+  simp only [List.map_id] at this
+  have hu : u8 (path.length :: (path.flatMap (fun q => [q.1, q.2]) ++ r)) = ok (path.length, path.flatMap (fun q => [q.1, q.2]) ++ r) := rfl
+  simp only [readTypePath, encTypePath, List.cons_append, hu, ok_bind]
+  exact this
+
+theorem readTarget_enc (o : Owner) (t : Target) (h : targetOk o t) (r : Bytes) :
+    (match o with | .cls => readTargetClass | .field => readTargetField | .method => readTargetMethod) (encTarget t ++ r) = ok (t, r) := by
+  cases o <;> cases t <;> simp only [targetOk] at h
+  all_goals first
+    | exact h.elim
+    | skip
+  · obtain ⟨rfl, h2⟩ := h; simp [readTargetClass, encTarget, u8]
+  · simp [readTargetClass, encTarget, u8, u16_be16 65535 (by decide)]
+  · have h16 : _ < 65536 := Nat.lt_trans h (by decide)
+    have hne : ¬ (_ = 65535) := Nat.ne_of_lt h
+    simp [readTargetClass, encTarget, u8, u16_be16 _ h16, hne]
+  · obtain ⟨rfl, h2, h3⟩ := h; simp [readTargetClass, encTarget, u8]
+  · simp [readTargetField, encTarget, u8]
+  · obtain ⟨rfl, h2⟩ := h; simp [readTargetMethod, encTarget, u8]
+  · obtain ⟨rfl, h2, h3⟩ := h; simp [readTargetMethod, encTarget, u8]
+  · simp [readTargetMethod, encTarget, u8]
+  · simp [readTargetMethod, encTarget, u8]
+  · simp [readTargetMethod, encTarget, u8]
+  · simp [readTargetMethod, encTarget, u8, u16_be16 _ h]
+
+/-- the target reader of an owner -/
+def targetReader : Owner → Rd Target
+  | .cls => readTargetClass
+  | .field => readTargetField
+  | .method => readTargetMethod
+
+theorem readTypeAnnos_enc (p : Pool) (o : Owner) (as : List STypeAnno) (hn : as.length < 65536) (has : ∀ a ∈ as, a.Legal p o) (r : Bytes) :
+    readTypeAnnos p (targetReader o) (encTypeAnnos as ++ r) = ok (as.map STypeAnno.fact, r) := by
+  have := readVec16_flatMap (fun s => do
+      let (t, s) ← targetReader o s
+      let (path, s) ← readTypePath s
+      let (a, s) ← readAnnotation p s
+      pure ((⟨t, path, a⟩ : TypeAnno), s)) STypeAnno.encode STypeAnno.fact as hn
+    (fun a ha r => by
+      obtain ⟨h1, h2, h3⟩ := has a ha
+      have e1 : targetReader o (encTarget a.target ++ (encTypePath a.path ++ (a.anno.encode ++ r))) =
+          ok (a.target, encTypePath a.path ++ (a.anno.encode ++ r)) := by
+        have := readTarget_enc o a.target h1 (encTypePath a.path ++ (a.anno.encode ++ r))
+        cases o <;> exact this
+      simp only [STypeAnno.encode, List.append_assoc, e1, ok_bind, readTypePath_enc a.path h2, readAnnotation_enc p a.anno h3,
+        pure_eq, STypeAnno.fact]) r
+  simpa [readTypeAnnos, encTypeAnnos, List.append_assoc] using this
+
+end ClassRead
